@@ -157,6 +157,8 @@ func (c *Conc) envNum(setting string, s Src) (string, bool) {
 		return c.pick(repFloat), true
 	case "overflow":
 		return c.pick(repOverflow), true
+	case "huge": // a legal integer whose unit conversion overflows (huge.go)
+		return c.hugeEnv(setting, s), true
 	case "padded":
 		return fmt.Sprintf(c.pick(repPad), strconv.Itoa(c.numVal(setting, s.V))), true
 	}
@@ -174,6 +176,8 @@ func (c *Conc) optNum(setting string, s Src) (int, bool) {
 		return defaultNum(setting), true
 	case "zero":
 		return 0, true
+	case "huge":
+		return c.hugeOpt(setting), true
 	case "neg":
 		if unitOf(setting) == "count" {
 			return c.pickInt([]int{-1, -7, -1 << 31}), true
@@ -213,6 +217,9 @@ func (c *Conc) absCount(setting string, n, offered int) []string {
 func (c *Conc) absDeadline(setting string, has bool, remainingMs int64) []string {
 	if !has {
 		return []string{"none"}
+	}
+	if remainingMs > yearMs {
+		return []string{"far"} // a deadline centuries away (value class HUGE taken at its word)
 	}
 	match := func(v int) bool { return remainingMs > int64(v)-8000 && remainingMs <= int64(v)+500 }
 	var out []string
